@@ -793,6 +793,12 @@ func TestVerifC17RouteSync(t *testing.T) {
 					mocknetlink.FailNextRouteDel, mocknetlink.FailNextNewNetlink, mocknetlink.FailNextSetSocketTimeout, mocknetlink.FailNextSetStrict,
 				}).Draw(t, "fault")
 				h.dp.FailuresToSimulate |= f
+				if f == mocknetlink.FailNextLinkByNameNotFound {
+					// Not a failure but false information ("the interface is gone"): Felix rightly
+					// believes it until its next full resync re-lists the links.
+					h.extDirty = true
+					h.resyncRequested = false
+				}
 				h.classes["fault-"+f.String()] = true
 				h.faultsSinceGood++
 				h.ops = append(h.ops, "f")
